@@ -681,7 +681,8 @@ def eval_one_session(ctx, case, excl):
     """runs impl and model in lock-step (the model needs the impl's bytes for the wire)"""
     from circuits import Event
     try:
-        w, steps = run_session_impl(case)
+        with ctx.guard(case, what='node Protocol (session of this case)'):
+            w, steps = run_session_impl(case)
     except Unsupported:
         raise
     fwp = resolve_fw(case)                     # the firewalls as functions of the event (oracle and model)
@@ -2200,7 +2201,8 @@ def eval_two(ctx, cases):
 
 
 def eval_one_two(ctx, case, excl):
-    steps, obs, end = run_two_impl(case)
+    with ctx.guard(case, what='node endpoints (two-party scenario)'):
+        steps, obs, end = run_two_impl(case)
     case = dict(case, steps=steps)            # cut modes resolved: what is recorded is concrete
     nconn = len(case['conns'])
     # ---- model ops
